@@ -81,6 +81,9 @@ TFreeze == /\ IsEvent("freeze") /\ Ev.err = "" /\ env.kind = "mem"
            /\ env' = [env EXCEPT !.kind = "sorted"] /\ rebase' = TRUE
            /\ UNCHANGED <<cnt, log, hist>>
 
-TraceNext == TraceReset \/ TraceSkip \/ TPut \/ TFill \/ TDel \/ TGet \/ TSnap \/ TCnt \/ TReload \/ TFreeze
+TVisit == /\ IsEvent("visit") /\ Strict /\ Ev.err = "" /\ VisitOK(Ev.ents, Ev.other, Ev.asc)
+          /\ UNCHANGED <<vars, rebase>>
+
+TraceNext == TraceReset \/ TraceSkip \/ TVisit \/ TPut \/ TFill \/ TDel \/ TGet \/ TSnap \/ TCnt \/ TReload \/ TFreeze
 TraceSpec == TraceInit /\ [][TraceNext]_tvars
 =============================================================================
